@@ -11,9 +11,10 @@ def I(name, entry, **kw):
              bound='message with only this field set; ' + STR); d.update(kw); return d
 def CASE(field, k, n, **kw):
     return I('f_%s_c%d' % (field, k), 'h_f_' + field, cdefs={'DOM_MAXCH': 6, 'DOM_MAXATTR': 16, 'VP_CASE': k}, bound='message with only this field set (enum value %d of %d); %s' % (k, n, STR), **kw)
-FIELD_INSTANCES = ([I('f_' + f, 'h_f_' + f) for f in PUBLIC_FIELDS + BOTH_FIELDS + SENSITIVE_FIELDS]
-                   + [CASE('hint', k, 4) for k in range(4)]
-                   + [CASE('chat_state', k, 5, tiers=('quick', 'thorough') if k in (0, 4) else ('thorough',)) for k in range(5)]
+THOROUGH_ONLY = ('stanza_id', 'mix_jid', 'mix_nick')   # variants of stanza_ids2 / mix_user; also exercised (symbolic presence) by ni_sensitive_*
+FIELD_INSTANCES = ([I('f_' + f, 'h_f_' + f, tiers=('thorough',) if f in THOROUGH_ONLY else ('quick', 'thorough')) for f in PUBLIC_FIELDS + BOTH_FIELDS + SENSITIVE_FIELDS]
+                   + [CASE('hint', k, 4, tiers=('quick', 'thorough') if k in (0, 3) else ('thorough',)) for k in range(4)]
+                   + [CASE('chat_state', k, 5, tiers=('quick', 'thorough') if k == 4 else ('thorough',)) for k in range(5)]
                    + [CASE('marker', k, 3, tiers=('quick', 'thorough') if k == 1 else ('thorough',)) for k in range(3)])
 BIG = dict(unwind=40, object_bits=14, cdefs={'DOM_MAXCH': 36, 'DOM_MAXATTR': 24}, mem_gb=6, timeout_s=600)
 COMPOSITE = [I('allset', 'h_allset', bound='message with EVERY extension set at once (13 elements in the public part, 25 in the sensitive part); ' + STR, **BIG),
@@ -30,5 +31,27 @@ SPEC = dict(
         dict(name='msg', harness='h.cpp', tus=TUS, models=MODELS, cxxdefs={'_GLIBCXX_RANGES': 1},
              instances=COMPOSITE + FIELD_INSTANCES + KF_INSTANCES),
     ],
-    bounds=[], assumptions=[], outside=[],
+    bounds=['every string-valued field: exactly 1 arbitrary UTF-16 code unit (string LENGTHS are concrete, contents symbolic); integers, the stamp and the bob max-age: full range',
+            'f_*: message with exactly one extension field (or one group such as thread+parent, marker+id+thread, MUC jid+password+reason) set; enum-valued fields one value per instance (hints 4, chat states 5, markers 3; quick tier runs the boundary values)',
+            'allset / allset_all / envelope: every extension at once: 13 elements in the public part, 25 in the sensitive part (<= 2 stanza ids, 1 element per list-valued field)',
+            'ni_public_full/empty: every / no whitelisted field set, then ANY subset (2^24, symbolic presence flags) of the sensitive fields with any chat state / marker value on top; ni_sensitive_full/empty: the mirror image with ANY subset (2^11) of the whitelisted fields',
+            'modes: ScePublic, SceSensitive, SceAll each serialized; parse(public tree, ScePublic) then parse(sensitive tree, SceSensitive) into one object; parse(unsplit tree, SceAll)',
+            'DOM/writer tree model: <= 36 children, <= 24 distinct attribute names; QVector payloads <= 4 elements'],
+    assumptions=['the extension classes of other translation units (QXmppOutOfBandUrl, QXmppBitsOfBinaryData, QXmppJingleMessageInitiationElement, QXmppCallInviteElement, QXmppMixInvitation, QXmppTrustMessageElement, QXmppMessageReaction, QXmppFileShare, QXmppFileSourcesAttachment) are one-value stand-ins (c17_env.h) that write/recognise/parse ONE element with the real tag and namespace and an attribute "v": C17 is about which mode-guarded block of QXmppMessage calls them, their own codecs are C01\'s subject',
+                 'QXmppElement (unknown extensions) is a counting stand-in: an element that falls through to "unknown extension" is counted, not stored',
+                 'QDateTime/QTime/QTimeZone are abstract values (c17_models.c): text form = abstract number string, fromString(toString(x)) == x for valid x, any other text parses to an arbitrary date-time; all values are UTC',
+                 'QXmlStreamWriter/QDom = shared tree model (serialize -> parse never goes through text; Qt\'s escaping/tokenising trusted); namespaceURI() = own xmlns or the parent\'s',
+                 'QVector<T> payload blocks are typed fixed-capacity blocks (class-level override of QTypedArrayData<T>::allocate); ~QString does not decrement reference counts (string blocks of the model are never recycled)',
+                 'cbmc\'s dead-object / deallocated bookkeeping is reset at phase boundaries and in ~QString (vp_c17_phase, performance): use-after-scope / use-after-free of objects that died earlier is not reported; NULL / bounds / invalid-pointer checks of the translated code stay on',
+                 'known finding d12_jmi_callinvite (if listed in known_findings.txt): the split round trip of the Jingle-message-initiation and call-invite elements is then not asserted in f_jmi / f_call_invite / allset / envelope and is demonstrated by kf_jmi / kf_call_invite instead'],
+    outside=['XHTML-IM (setXhtml): serialization writes raw text to writer->device(), which is deliberately unmodelled (flagged if reached); never set',
+             'legacy delayed delivery (XEP-0091 stamp type): only reachable by parsing, has no setter',
+             'OMEMO element (BUILD_OMEMO is off in the build this framework mirrors)',
+             'arbitrary subsets of the fields in the part that is being serialized (only: one field, all fields, none; the OTHER part\'s fields are arbitrary subsets in ni_*)',
+             'encryptionName without encryptionMethod, parentThread without thread, spoiler hint without spoiler: not serialized at all by design',
+             'receipt request together with a receipt id (the serializer drops the request by design)',
+             'fallback markers with references (QXmppFallback codec itself is C01\'s subject; markers carry a for-namespace only)',
+             'strings longer than 1 unit, more than 2 stanza ids / 1 element per list-valued extension; unknown (third-party) extension elements',
+             'QXmppClient::sendSensitive / QXmppOmemoManager call sites themselves (QXmppClient.cpp:523-570): the harness reproduces their call pattern toXml(ScePublic) + serializeExtensions(SceSensitive, ns_client) / parse(ScePublic) + parseExtensions(SceSensitive) in instance envelope',
+             'QXmppClient.cpp:198 parses an UNENCRYPTED message with SceSensitive when an e2ee extension is installed (public-block fields such as stanza-id are then dropped): observed while reading, not part of C17'],
 )
